@@ -19,6 +19,7 @@ mod fstw;
 mod pair;
 mod loadseq;
 mod detect;
+mod serdecmd;
 
 thread_local! {
     pub static LAST_PANIC: std::cell::RefCell<String> = std::cell::RefCell::new(String::new());
@@ -47,6 +48,8 @@ pub fn dispatch(line: &str) -> String {
     }
     match toks[0] {
         "tables" => tables::tables(&toks),
+        "serdert" => serdecmd::serdert(&toks),
+        "serdejson" => serdecmd::serdejson(&toks),
         "detect" => detect::detect(&toks),
         "detectfile" => detect::detectfile(&toks),
         "nsig" => loadseq::nsig(&toks),
